@@ -104,7 +104,7 @@ def build_xml(par, js, pv, feat):
         if n >= 2:
             eq += '    <connect name="e_cb" body1="b%d" body2="b0" anchor="-0.02 0.04 0.03"/>\n' % last
             eq += '    <weld name="e_wb" body1="b0" body2="b%d" relpose="0.05 0.02 -0.03 0.7 -0.2 0.4 0.1" anchor="0.01 -0.02 0.05" torquescale="1.3"/>\n' % last
-            eq += '    <weld name="e_ws" site1="s0" site2="s%d" torquescale="0.4"/>\n' % last
+            eq += '    <weld name="e_ws" site1="s0" site2="sr%d" torquescale="0.4"/>\n' % last      # sites with different local frames
         ten = '    <spatial name="t_sp" limited="true" range="0.1 0.2" margin="10"%s><site site="s%d"/><site site="sw"/></spatial>\n' % (
             ' frictionloss="0.2"' if feat == "sparse" else "", last)
         if n >= 2:
